@@ -199,6 +199,19 @@ REGISTRY["C16"] = dict(
     explanation="Clauses of DESIGN.md §3 C16 on MIR facts of the current tree. NOT decided: that simplification preserves the computed value for all inputs.",
     assumptions=TRUSTED,
 )
+REGISTRY["C18"] = dict(
+    module="c18",
+    level="other",
+    technique="static analysis: HIR override inventory of the three parser impls; table extraction of the lexer's newline normalisation and of CssParser::parse_at_rule; who-may-construct rule for Identifier; guard rules for is_plain_css",
+    claim=(
+        "Shared-table clauses: (a) the StylesheetParser/BaseParser methods each front end overrides are exactly the reviewed hook sets and is_indented/is_plain_css return the fixed constants; "
+        "(b) TokenLexer::next maps exactly FF, CR, CRLF to one `\\n` and advances the byte position by the source width; (c) Identifier is only built by from_str, which replaces `_` by `-`, and scope maps are keyed by it; "
+        "(d) CssParser::parse_at_rule rejects exactly dart-sass's set of Sass-only at-rules and every listed Sass-only construct has an is_plain_css() guard leading to Err. "
+        "NOT decided: that SCSS and indented inputs produce identical CSS."
+    ),
+    explanation="Clauses C18-a..d of DESIGN.md §3 on HIR/MIR facts of the current tree. NOT decided: behavioural equality of the front ends on concrete programs.",
+    assumptions=TRUSTED + ["E3: dart-sass 1.54 CssParser rejected at-rule set"],
+)
 
 UNBUILT = "check not built yet in this session (design in DESIGN.md §3); not claimed until its rules run clean on the pinned tree"
 NOT_APPLICABLE = {
